@@ -30,6 +30,13 @@ What is proved now, without any hypothesis on the heuristic:
     specific rule (`cex_repaired`, `cex₂_repaired`, `cex₃_repaired`).
 Soundness holds in every mode, as before; the `…_partial` theorems (hypothesis `needBT … = true`) remain.
 
+Captures (`unordered_captures`): for every name — a component that is literally `*` included — the captures
+`FSM.GetMapping` returns are `capturesOf` of the pattern that owns the final state. Before repair 0275669 a `*`
+component was looked up among the literal transitions, reached the `*` child there and was not recorded (finding
+`literal_star_component`; the theorem carried the hypothesis "no name component is literally `*`"); now it takes
+the wildcard branch and is captured (`star_component_captured`, `star_component_captured_cfg`), and the
+backtracking search no longer enters the `*` child twice for such a field (`star_field_single_branch`).
+
 `unordered_complete_statement` carries the premise `name ≠ []`: a name with zero fields is never looked up
 (`splitOn` never returns `[]`), and `premise_name_ne_needed` shows the premise cannot be dropped on the level of field lists.
 -/
@@ -63,8 +70,7 @@ theorem not_ambiguous_node (rs : TRules) (hna : ambiguousAt rs = false) (p : Pat
 /-- **Key lemma, general form**: in a non-ambiguous trie the search without backtracking reaches the same
     first final state — rule and captures — as the search with backtracking, from every node `p`, with
     every capture prefix, for every list of remaining fields (fields that are literally `*` included:
-    the backtracking search then enters the `*` child twice, but the second visit finds something only
-    if the first one does). -/
+    since repair 0275669 both searches take the single wildcard branch for such a field). -/
 theorem deterministic_search_from (rs : TRules) (hna : ambiguousAt rs = false)
     (p : Pat) (caps : List Bytes) (fields : List Bytes) :
     (dfs rs false p caps fields).head? = (dfs rs true p caps fields).head? :=
@@ -181,10 +187,9 @@ theorem unordered_eq_mostSpecific_of_backtracking (cfg : Config V) (hod : cfg.or
     (lookupGlob cfg name ty).map (·.ruleIdx) = mostSpecificGlob cfg name ty :=
   lookupGlob_unordered_bt cfg hod hbt name ty
 
-/-- The captures in unordered mode: if no name component is literally `*`, the captures
+/-- The captures in unordered mode (in fact in either mode), for every name: the captures
     `FSM.GetMapping` returns are those of the pattern that owns the final state. -/
-theorem unordered_captures (cfg : Config V) (name : Bytes) (ty : Nat)
-    (hns : NoStarField (splitOn 46 name)) (f : Found)
+theorem unordered_captures (cfg : Config V) (name : Bytes) (ty : Nat) (f : Found)
     (hf : globLookup (toGRules cfg) cfg.orderingDisabled (splitOn 46 name) ty = some f) :
     ∃ i r, (globRules cfg)[f.rule]? = some (i, r) ∧ cfg.rules[i]? = some r ∧
       ruleMatchesGlob r (splitOn 46 name) ty = true ∧ f.caps = capturesOf r.pat (splitOn 46 name) := by
@@ -196,7 +201,7 @@ theorem unordered_captures (cfg : Config V) (name : Bytes) (ty : Nat)
   have hk := mem_globKK hy
   refine ⟨y.1.2, y.1.1, by rw [← hyj]; exact hk.1, hk.2.1, ?_, ?_⟩
   · simp [ruleMatchesGlob, hk.2.2.1, hk.2.2.2, hyp, h1]
-  · rw [h3 hns, hyp]; simp
+  · rw [h3, hyp]; simp
 
 /-! ### The full-strength statements (refuted before the repair) now hold -/
 
@@ -388,13 +393,50 @@ example : globLookup detRules true [c, x] 0 = some ⟨1, [x]⟩ ∧ globLookup d
 example : backtracking (toGRules (mkCfg (detRules.map (·.pat)) true)) true = false := by decide
 example : (lookupGlob (mkCfg (detRules.map (·.pat)) true) [99, 46, 120] 0).map (·.ruleIdx) = some 1 := by
   rw [unordered_eq_mostSpecific _ rfl]; decide
--- a name field that is literally `*`: the backtracking search enters the `*` child twice, the first result agrees
-example : dfs (rulesFor detRules 0) true [] [] [c, starB] = [⟨1, []⟩, ⟨1, [starB]⟩] ∧
-    dfs (rulesFor detRules 0) false [] [] [c, starB] = [⟨1, []⟩] := by decide
+-- a name field that is literally `*`: see `star_field_single_branch` below
 -- `ambiguous = true` although the heuristic says no: the repaired branch is inhabited too (`cex_ambiguous`);
 -- a root that only a rule's own type names is inspected as well
 example : needBT [[a, starB, starB], [a, b, c]] true = false ∧
     ambiguous [⟨[a, starB, starB], some 5⟩, ⟨[a, b, c], some 5⟩] = true ∧
     globLookup [⟨[a, starB, starB], some 5⟩, ⟨[a, b, c], some 5⟩] true [a, b, d] 5 = some ⟨0, [b, d]⟩ := by decide
+
+/-! ### The repaired `*`-component defect (finding `literal_star_component`, repair 0275669) -/
+
+private def y : Bytes := [121]
+
+/-- A name field that is literally `*` takes the single wildcard branch, with and without backtracking, and is
+    recorded as a capture. (Before the repair the backtracking search entered the `*` child twice — first through
+    the literal transition, capturing nothing — and reported `[⟨1, []⟩, ⟨1, [*]⟩]`, the other one `[⟨1, []⟩]`.) -/
+theorem star_field_single_branch :
+    dfs (rulesFor detRules 0) true [] [] [c, starB] = [⟨1, [starB]⟩] ∧
+    dfs (rulesFor detRules 0) false [] [] [c, starB] = [⟨1, [starB]⟩] := by decide
+
+/-- **The repair, on the former counterexample, unordered mode**: rules `[a.*.*]`, name `a.*.y` — the captures are
+    `[*, y]` = `capturesOf` (they were `(y, "")`): without backtracking (`BacktrackingNeeded = false` for this
+    rule set), and with it (a second rule `a.b.y` makes the trie ambiguous). -/
+theorem star_component_captured :
+    backtracking [⟨[a, starB, starB], none⟩] true = false ∧
+    globLookup [⟨[a, starB, starB], none⟩] true [a, starB, y] 0 = some ⟨0, [starB, y]⟩ ∧
+    backtracking [⟨[a, starB, starB], none⟩, ⟨[a, b, y], none⟩] true = true ∧
+    globLookup [⟨[a, starB, starB], none⟩, ⟨[a, b, y], none⟩] true [a, starB, y] 0 = some ⟨0, [starB, y]⟩ ∧
+    capturesOf [a, starB, starB] [a, starB, y] = [starB, y] := by decide
+
+/-- the metric name `a.*.y` -/
+def starName : Bytes := [97, 46, 42, 46, 121]
+
+/-- The same through `lookupGlob` on the `Config` level, in either mode (`od` = `glob_disable_ordering`): the
+    mapping returned for `a.*.y` is rule 0 with its (empty) name template formatted with the captures `[*, y]`. -/
+theorem star_component_captured_cfg (od : Bool) :
+    globLookup (toGRules (mkCfg [[a, starB, starB]] od)) od (splitOn 46 starName) 0 = some ⟨0, [starB, y]⟩ ∧
+    lookupGlob (mkCfg [[a, starB, starB]] od) starName 0 =
+      some { ruleIdx := 0, name := (compileTemplate [] 2).format [starB, y], labels := [] } := by
+  have h : globLookup (toGRules (mkCfg [[a, starB, starB]] od)) od (splitOn 46 starName) 0 =
+      some ⟨0, [starB, y]⟩ := by cases od <;> decide
+  refine ⟨h, ?_⟩
+  unfold lookupGlob
+  show (match globLookup (toGRules (mkCfg [[a, starB, starB]] od)) od (splitOn 46 starName) 0 with
+    | none => none | some f => _) = _
+  rw [h]
+  rfl
 
 end SE.Props.C12
